@@ -137,7 +137,22 @@ Definition phybo_item_code (t : tree) (taxa : list Z) (i : phybo_item) : nat :=
   + bit 1 (replay_okb (pi_md i) (combine taxa (pi_obs i)) t (pi_out i))
   + bit 6 (negb (conflictb (pi_out i)))
   + bit 7 (Nat.eqb (length taxa) (length (pi_paps i)) && Nat.eqb (length taxa) (length (pi_obs i)))
-  + bit 8 (pi_coded_ok i).
+  + bit 8 (pi_coded_ok i)
+  (* C08 through PhyBo.get_GLS, weighted mode: the weight of the stored scenario against the verified
+     optimum for the pattern derived from the rows, under this call's missing_data *)
+  + match pi_mode i with
+    | GWeighted g l =>
+        let obs := combine taxa (pi_obs i) in
+        let w := weight_ev g l (pi_out i) in
+        let o := opt g l (pi_md i) obs t in
+        bit 2 (o <=? w)
+        + bit 3 (negb (Z.of_nat (length (tips t)) <=? pi_gpl i) || (w =? o))
+        + bit 4 (match all_present_below_lca obs t with
+                 | Some r => story_eqb (pi_out i) [(r, 1)]
+                 | None => true
+                 end)
+    | _ => 0%nat
+    end.
 
 Definition phybo_case_code (c : phybo_case) : nat :=
   fold_right (fun i acc => Nat.lor (phybo_item_code (pc_tree c) (pc_taxa c) i) acc) 0%nat (pc_items c).
